@@ -49,6 +49,21 @@ LEVEL = {
         "design_ref": "5.3", "note": "quiescent crash points only (no torn pages)",
         "technique": "property-based testing (rapid) with crash-point enumeration per history and an independent database reader",
     },
+    "C14": {
+        "text": "The decision table (message type x Server-ID relation x relay depth; siaddr x option 54) is enumerated completely for fixed arguments on every run, and sampled with generated server_id arguments in every accepted spelling; the oracle is the RFC 8415 section 16 table written independently, with the DUID encoded by the harness.",
+        "design_ref": "5.14", "note": "the enumeration is complete only for the listed dimensions and two argument pairs",
+        "technique": "exhaustive enumeration of the decision table + property-based testing (rapid) over arguments",
+    },
+    "C17": {
+        "text": "Randomised differential testing of every option plugin against option encoders written independently in the harness, over accepted arguments x request-list subsets (incl. absent) x stub shapes; the reply must equal the stub plus exactly the expected option.",
+        "design_ref": "5.17", "note": "expected encodings are the harness's reading of RFC 2132/3442/3397/8925/3646/5970",
+        "technique": "property-based differential testing (rapid) against independent option encoders",
+    },
+    "C19": {
+        "text": "Randomised exploration of the argument space of every built-in plugin (valid, boundary, invalid tokens per argument kind) crossed with a request battery; oracle: setup error XOR (no panic and the reply round-trips to the same options).",
+        "design_ref": "5.19", "note": "token pools are finite lists chosen by the harness; resource-bounded vectors are skipped and counted",
+        "technique": "property-based testing (rapid) with a round-trip oracle over a request battery",
+    },
 }
 
 NOT_APPLICABLE = [
@@ -61,6 +76,8 @@ ENGINES = [
      "kind_free_text": "rapid state-machine style histories over the two bitmap allocators against a set model; math/big differential for the prefix arithmetic"},
     {"name": "lease4", "path": "harness/lease4", "serves_properties": ["C02", "C03"],
      "kind_free_text": "DHCPv4 request/restart histories through rangeplugin.Plugin.Setup4 on sqlite files, reference lease table, crash-point copies"},
+    {"name": "opts", "path": "harness/opts", "serves_properties": ["C14", "C17", "C19"],
+     "kind_free_text": "direct calls of the handlers returned by each Plugin.Setup4/Setup6 with wire-built requests; decision-table enumeration, independent option encoders, round-trip oracle"},
     {"name": "pd6", "path": "harness/pd6", "serves_properties": ["C08", "C09"],
      "kind_free_text": "DHCPv6 prefix-delegation message histories (wire-built requests) through prefix.Plugin.Setup6 against an owner table and held sets"},
 ]
